@@ -408,7 +408,7 @@ def instr_line(op, a):
     raise AsmError('unknown op ' + op)
 
 
-def to_driver(p, ident, fuel=2_000_000, watch=()):
+def to_driver(p, ident, fuel=2_000_000, watch=(), monitor=False):
     out = ['P %s' % ident, 'W %s' % _b(p.W),
            'S ' + ' '.join(_b(b) for b in p.state),
            'C ' + ' '.join(_b(b) for b in p.const)]
@@ -416,5 +416,7 @@ def to_driver(p, ident, fuel=2_000_000, watch=()):
         out.append(instr_line(op, a))
     if watch:
         out.append('T ' + ' '.join(_b(x) for x in watch))
+    if monitor and all(k in p.labels for k in ('stack_start', 'stack_end', 'all_is_win')):
+        out.append('M %s %s %s' % (_b(p.labels['stack_start']), _b(p.labels['stack_end']), _b(p.labels['all_is_win'])))
     out.append('R %d' % fuel)
     return '\n'.join(out) + '\n'
